@@ -38,6 +38,8 @@ func c20Gen(g *core.Gen) {
 		// histories: the set was created before with more recovery blocks (stale but valid volumes remain, blocks exist twice); a volume was copied
 		// files above 16 KiB (first file 17000 bytes): damage beyond the first 16 KiB, with exactly as much recovery data left as needed
 		"big-intact", "big-tail-tight", "big-tail", "big-head-tight",
+		// PAR1 only: the set also protects a zero-length file, which is intact / deleted / overwritten with bytes / deleted together with every volume
+		"empty-intact", "empty-deleted", "empty-garbage", "empty-deleted-noparity",
 		"recreated-intact", "recreated-deleted", "recreated-shifted+deleted", "recreated-unrepairable", "dupvol-intact", "dupvol-deleted"}
 	cwds := []string{"set", "parent", "unrelated"}
 	for _, f := range []string{"p2", "p1"} {
@@ -46,6 +48,9 @@ func c20Gen(g *core.Gen) {
 		for _, st := range states {
 			if f == "p1" && strings.HasPrefix(st, "dupvol") {
 				continue // a PAR1 volume's number is part of its name: a copy under another name is a different scenario (C19)
+			}
+			if f == "p2" && strings.HasPrefix(st, "empty-") {
+				continue // PAR2 Create refuses zero-length inputs
 			}
 			for _, cw := range cwds {
 				for _, c := range verifyCmds {
@@ -161,6 +166,9 @@ func c20Run(ci interface{}, r *core.Rec) {
 	if strings.HasPrefix(c.State, "big") {
 		sizes = append([]int{17000}, sizes...)
 	}
+	if strings.HasPrefix(c.State, "empty-") {
+		sizes = append(append([]int{}, sizes...), 0)
+	}
 	var paths []string
 	var datas [][]byte
 	for i, n := range sizes {
@@ -263,6 +271,15 @@ func c20Run(ci interface{}, r *core.Rec) {
 		}
 	}
 	switch c.State {
+	case "empty-deleted":
+		os.Remove(paths[len(paths)-1])
+	case "empty-garbage":
+		ioutil.WriteFile(paths[len(paths)-1], []byte("garbage"), 0644)
+	case "empty-deleted-noparity":
+		os.Remove(paths[len(paths)-1])
+		for _, p := range recFiles() {
+			os.Remove(p)
+		}
 	case "deleted", "recreated-deleted", "dupvol-deleted":
 		os.Remove(paths[1])
 	case "shifted":
@@ -612,7 +629,7 @@ func init() {
 	core.Register(&core.Prop{
 		ID:    "C20",
 		Level: "model_checking",
-		Rule: "full product through the built par binary: {PAR1, PAR2} x {verify, v, VERIFY, -g 2 verify, verify -a; repair, r, Repair, repair -doublecheck, -g 3 r -doublecheck=true} x archive state {intact, repairable by deletion, by shift/change, by removing appended bytes, shift+deletion, unrepairable, no parity (data intact / file deleted / file only shifted), one block left + shift, damaged index, missing index, a 17000-byte first file intact / damaged beyond or within its first 16 KiB with exactly one recovery block (volume) left or with all} x invocation directory {set directory with relative paths, parent with relative paths, unrelated with absolute paths}; command histories: a first verify / repair followed by every sequence of 2 (thorough 3) further steps from {verify, verify -a, repair, repair -doublecheck, delete a file, restore all files} from 5 starting states, every command judged against the byte truth at that moment; create variants (incl. option values at and beyond their limits - slice size 0 / 6 / negative / 2^20, block count 0 / -1 / 255 / 256 / 32768 / 65534 / 65535 / 65536, goroutines 0 / negative / 100000, an input listed twice, the index as its own input, no input, inputs whose names look like members of the set (s.pdf, s.par2.txt, s.vol-notes): there only 'exit 0 => complete valid set' is judged -; missing input, missing directory, an output path blocked by a directory: index, first and last recovery file; a Create cut short by a file size limit of 1..40 blocks, then repeated without the limit, then verify / delete a file + repair + verify), 11 usage-error command lines plus 29 near-command words (the empty word, blanks, proper prefixes, one letter too many, padded with blanks), unknown extensions. " +
+		Rule: "full product through the built par binary: {PAR1, PAR2} x {verify, v, VERIFY, -g 2 verify, verify -a; repair, r, Repair, repair -doublecheck, -g 3 r -doublecheck=true} x archive state {intact, repairable by deletion, by shift/change, by removing appended bytes, shift+deletion, unrepairable, no parity (data intact / file deleted / file only shifted), one block left + shift, damaged index, missing index, (PAR1) a zero-length protected file intact / deleted / overwritten / deleted together with all volumes, a 17000-byte first file intact / damaged beyond or within its first 16 KiB with exactly one recovery block (volume) left or with all} x invocation directory {set directory with relative paths, parent with relative paths, unrelated with absolute paths}; command histories: a first verify / repair followed by every sequence of 2 (thorough 3) further steps from {verify, verify -a, repair, repair -doublecheck, delete a file, restore all files} from 5 starting states, every command judged against the byte truth at that moment; create variants (incl. option values at and beyond their limits - slice size 0 / 6 / negative / 2^20, block count 0 / -1 / 255 / 256 / 32768 / 65534 / 65535 / 65536, goroutines 0 / negative / 100000, an input listed twice, the index as its own input, no input, inputs whose names look like members of the set (s.pdf, s.par2.txt, s.vol-notes): there only 'exit 0 => complete valid set' is judged -; missing input, missing directory, an output path blocked by a directory: index, first and last recovery file; a Create cut short by a file size limit of 1..40 blocks, then repeated without the limit, then verify / delete a file + repair + verify), 11 usage-error command lines plus 29 near-command words (the empty word, blanks, proper prefixes, one letter too many, padded with blanks), unknown extensions. " +
 			"Oracle (one-directional, as stated): exit 0 => full success by byte truth / library re-verification (for create also: taking any one input away makes the new set need repair); verify needed&possible => 1, needed&impossible => 2; repair needed&impossible => 2, possible => 0 and files restored; usage => 3; other failures => neither 0 nor 3; no Go panic; files created relative to the invocation directory. non-trivial = verify/repair/create runs",
 		Assumptions: []string{"'needed' = some protected file not byte-identical; 'possible' = reference count of unfindable slices (unusable files) <= intact recovery blocks (volumes) present"},
 		NewCase:     func() interface{} { return &c20Case{} },
